@@ -462,6 +462,74 @@ pub mod life {
         bits
     }
 
+    /// Shared (Arc) mpmc SEND and RECEIVE futures (they take their Arc out for every poll and must put it back on Pending):
+    /// straight-line scenario on a capacity-1 channel. C08 every value delivered or handed back once, C09 FIFO / capacity,
+    /// C10 the parked sender is woken, C11 close semantics, C17 is_terminated().
+    pub fn shared_mpmc_min<M: lock_api::RawMutex + 'static, S: Src>(s: &mut S, p: u32) -> u32 {
+        let (tx, rx) = Mpmc::<M>::mk();
+        let (cs, cr) = (WakeCell::new(), WakeCell::new());
+        let ws = ManuallyDrop::new(mk_waker(&cs));
+        let wr = ManuallyDrop::new(mk_waker(&cr));
+        let pre = s.flag();
+        if pre { core::mem::forget(tx.try_send(Tag(1))); }
+        let mut sf = ManuallyDrop::new(tx.send(Tag(2)));
+        let r = { let mut cx = Context::from_waker(&ws); unsafe { Pin::new_unchecked(&mut *sf) }.poll(&mut cx) };
+        let mut sdone = false;
+        match r {
+            Poll::Ready(Ok(())) => { if (p & (P09 | P08)) != 0 { assert!(!pre, "C09 shared send future: completed although the buffer is full"); } sdone = true; }
+            Poll::Ready(Err(e)) => { core::mem::forget(e); if (p & (P08 | P11)) != 0 { assert!(false, "C11 shared send future: failed on an open channel"); } sdone = true; }
+            Poll::Pending => { if (p & (P09 | P10)) != 0 { assert!(pre, "C09 shared send future: pending although there is room"); } }
+        }
+        if (p & P17) != 0 { assert!(sf.is_terminated() == sdone, "C17 shared send future: is_terminated() differs from 'completed'"); }
+        let closing = s.flag();
+        if closing {
+            let _ = tx.close();
+            if !sdone {
+                if (p & (P10 | P11)) != 0 { assert!(cs.n() == 1, "C10+C11 shared send future: parked at close() but not woken"); }
+                let r = { let mut cx = Context::from_waker(&ws); unsafe { Pin::new_unchecked(&mut *sf) }.poll(&mut cx) };
+                match r {
+                    Poll::Ready(Err(e)) => { if (p & (P08 | P11)) != 0 { assert!((e.0).0 == 2, "C08+C11 shared send future: did not hand back its own value after close()"); } core::mem::forget(e); }
+                    Poll::Ready(Ok(())) => { if (p & P11) != 0 { assert!(false, "C11 shared send future: completed with Ok after close() although its value was never accepted"); } }
+                    Poll::Pending => { if (p & (P10 | P11)) != 0 { assert!(false, "C11 shared send future: still pending after close()"); } }
+                }
+                sdone = true;
+                if (p & P17) != 0 { assert!(sf.is_terminated(), "C17 shared send future: not terminated after it completed"); }
+            }
+        }
+        // the consumer: values accepted before the close are still delivered, in order, then None
+        let first = if pre { 1 } else { 2 };
+        let mut rf = ManuallyDrop::new(rx.receive());
+        let r = { let mut cx = Context::from_waker(&wr); unsafe { Pin::new_unchecked(&mut *rf) }.poll(&mut cx) };
+        match r {
+            Poll::Ready(Some(t)) => { if (p & (P08 | P09)) != 0 { assert!(t.0 == first, "C09 shared receive future: did not yield the oldest accepted value"); } core::mem::forget(t); }
+            Poll::Ready(None) => { if (p & (P08 | P11)) != 0 { assert!(false, "C11 shared receive future: None although an accepted value is undelivered"); } }
+            Poll::Pending => { if (p & (P08 | P10)) != 0 { assert!(false, "C10 shared receive future: pending although a value is buffered"); } }
+        }
+        if (p & P17) != 0 { assert!(rf.is_terminated(), "C17 shared receive future: not terminated after it completed"); }
+        if !sdone {
+            // the parked sender's value moved into the freed slot and the sender was woken through its waker
+            if (p & P10) != 0 { assert!(cs.n() == 1, "C10 shared send future: its value was accepted but it was not woken"); }
+            let r = { let mut cx = Context::from_waker(&ws); unsafe { Pin::new_unchecked(&mut *sf) }.poll(&mut cx) };
+            match r {
+                Poll::Ready(Ok(())) => {}
+                Poll::Ready(Err(e)) => { core::mem::forget(e); if (p & (P08 | P11)) != 0 { assert!(false, "C11 shared send future: failed on an open channel"); } }
+                Poll::Pending => { if (p & (P09 | P10)) != 0 { assert!(false, "C10 shared send future: still pending after its value was accepted"); } }
+            }
+            if (p & P17) != 0 { assert!(sf.is_terminated(), "C17 shared send future: not terminated after it completed"); }
+        }
+        // second value (if one is still due) and the end
+        let second_due = pre && !closing;
+        match rx.try_receive() {
+            Ok(t) => { if (p & (P08 | P09)) != 0 { assert!(second_due && t.0 == 2, "C09 shared mpmc: a value was delivered twice or out of order"); } core::mem::forget(t); }
+            Err(e) => { if (p & (P08 | P11)) != 0 { assert!(!second_due && e.is_closed() == closing, "C11 shared mpmc: an accepted value is missing, or empty/closed is reported wrongly"); } }
+        }
+        core::mem::forget(tx);
+        core::mem::forget(rx);
+        let bits = (pre as u32) | ((closing as u32) << 1);
+        s.reached(bits);
+        bits
+    }
+
     /// SharedStream (the stream adapter of the shared receiver; it creates one shared receive future per item):
     /// straight-line scenario - one optional buffered value, optional close, then two polls of the stream.
     /// (A looping interpreter over the shared channel exhausts memory: > 22 GB at two symbolic steps.)
@@ -506,6 +574,7 @@ pub mod life {
         type NL = crate::LocalLock;
         match name {
             "shared_stream_min" => { shared_stream_min::<NL, _>(s, p); }
+            "shared_mpmc_min" => { shared_mpmc_min::<NL, _>(s, p); }
             "shared_polls" => { shared_polls::<NL, _>(s, p); }
             "shared_polls_check" => { shared_polls::<CheckLock, _>(s, p); }
             "shared_mpmc" => { shared_mpmc::<NL, _>(s, 64, p); }
@@ -537,6 +606,21 @@ pub mod life {
                 }
             };
         }
+        #[kani::proof]
+        #[kani::unwind(4)]
+        fn shared_mpmc_min_c09() { let b = shared_mpmc_min::<NL, _>(&mut KaniSrc, P09); kani::cover!(b == 1, "W shared mpmc: sender parked, then served"); }
+        #[kani::proof]
+        #[kani::unwind(4)]
+        fn shared_mpmc_min_c08() { let _ = shared_mpmc_min::<NL, _>(&mut KaniSrc, P08); }
+        #[kani::proof]
+        #[kani::unwind(4)]
+        fn shared_mpmc_min_c10() { let _ = shared_mpmc_min::<NL, _>(&mut KaniSrc, P10); }
+        #[kani::proof]
+        #[kani::unwind(4)]
+        fn shared_mpmc_min_c11() { let _ = shared_mpmc_min::<NL, _>(&mut KaniSrc, P11); }
+        #[kani::proof]
+        #[kani::unwind(4)]
+        fn shared_mpmc_min_c17() { let _ = shared_mpmc_min::<NL, _>(&mut KaniSrc, P17); }
         #[kani::proof]
         #[kani::unwind(4)]
         fn shared_stream_min_c17() { let b = shared_stream_min::<NL, _>(&mut KaniSrc, P17); kani::cover!(b == 3, "W shared stream: value buffered and closed"); }
